@@ -193,6 +193,17 @@ def run_chain(gen, layout, members, steps, memo_key=None):
                 if lost:
                     out.fail("survivors_keep", "", dict(ctx, survivor=m, lost=lost), **params)
                     return out
+        elif kind == "return" and ident_both and gen == "positive":
+            # members coming back with older-generation claims lose every conflict against the current owners, so for
+            # the members that stayed this is a plain join: none of their partitions moves to another one of them
+            stayed = {m for m, _ in prev_members}
+            now = {tp: m for m, v in result.items() for tp in v}
+            for m, _ in prev_members:
+                for tp in prev_result[m]:
+                    o = now.get(tp)
+                    if o is not None and o != m and o in stayed:
+                        out.fail("no_old_to_old", "return", dict(ctx, partition=tp, was=m, now=o), **params)
+                        return out
         elif kind == "add" and ident_both:
             old = {m for m, _ in prev_members}
             now = {tp: m for m, v in result.items() for tp in v}
